@@ -48,6 +48,13 @@ type CorruptSpec struct {
 
 // BuildTable writes a valid table with seeded records.
 func BuildTable(seed uint64, cfg CfgSpec, nrefs, nlogs int, minIdx uint64) ([]byte, []Ref, []Log, error) {
+	return BuildTableShadowing(seed, cfg, nrefs, nlogs, minIdx, 0)
+}
+
+// BuildTableShadowing: logBase > 0 makes the table's reflog records carry
+// update indices logBase, logBase+1 (those of an older table: rewritten
+// entries, every third one a deletion) instead of the table's own.
+func BuildTableShadowing(seed uint64, cfg CfgSpec, nrefs, nlogs int, minIdx uint64, logBase uint64) ([]byte, []Ref, []Log, error) {
 	r := simrt.NewRng(seed, "table")
 	hs := cfg.HashSize()
 	rc := reftable.Config{Unaligned: cfg.Unaligned, BlockSize: cfg.BlockSize, SkipIndexObjects: cfg.SkipIndexObjects, RestartInterval: cfg.Restart, ExactLogMessage: cfg.ExactLog}
@@ -95,7 +102,14 @@ func BuildTable(seed uint64, cfg CfgSpec, nrefs, nlogs int, minIdx uint64) ([]by
 	}
 	var logs []Log
 	for i := 0; i < nlogs; i++ {
-		l := Log{Name: fmt.Sprintf("refs/heads/n%0*d", nameWidth, i/2), Idx: minIdx + uint64(1-i%2), Old: UniqValue(i, "o", "", hs), New: UniqValue(i, "n", "", hs), Who: "A U Thor", Email: "a@b", Time: 100 + uint64(i), TZ: 60, Msg: "msg"}
+		lb := minIdx
+		if logBase > 0 {
+			lb = logBase
+		}
+		l := Log{Name: fmt.Sprintf("refs/heads/n%0*d", nameWidth, i/2), Idx: lb + uint64(1-i%2), Old: UniqValue(i, "o", "", hs), New: UniqValue(i, "n", "", hs), Who: "A U Thor", Email: "a@b", Time: 100 + uint64(i), TZ: 60, Msg: "msg"}
+		if logBase > 0 && i%3 == 2 {
+			l = Log{Name: l.Name, Idx: l.Idx, Del: true}
+		}
 		lr := toLogRecord(l)
 		if err := w.AddLog(&lr); err != nil {
 			return nil, nil, nil, err
